@@ -32,6 +32,10 @@ def _norm(v):
   return v
 
 
+def _double(x):
+  return np.asarray(x) * 2
+
+
 def _cols(rows):
   return [list(c) for c in zip(*rows)] if rows else []
 
@@ -93,6 +97,13 @@ def zoo():
                       lambda a: _norm((a.min, a.max, a.count))))
   z.append(_mergeable('MinMaxAndCount', rs.MinMaxAndCount, [(3,), (1,), (2,), (9,), (4,)],
                       lambda a: _norm([a.result().min, a.result().max, a.result().count]) if a.result().count else None))
+  # the optional per-batch score function and the reduction axis
+  z.append(_mergeable('Mean-batch_score_fn', lambda: rs.Mean(batch_score_fn=_double), r1, lambda a: _norm([a.count, a.result()])))
+  z.append(_mergeable('MeanAndVariance-batch_score_fn', lambda: rs.MeanAndVariance(batch_score_fn=_double), r1, lambda a: _norm([a.count, a.mean, a.var])))
+  z.append(_mergeable('MinMaxAndCount-batch_score_fn', lambda: rs.MinMaxAndCount(batch_score_fn=_double), [(3,), (1,), (2,), (9,), (4,)],
+                      lambda a: _norm((a.min, a.max, a.count))))
+  r4 = [([3.0, 8.0],), ([1.0, 9.0],), ([2.0, 7.0],), ([5.0, 6.0],)]
+  z.append(_mergeable('MinMaxAndCount-axis0', lambda: rs.MinMaxAndCount(axis=0), r4, lambda a: _norm((a.min, a.max, a.count))))
   yb = [(1, 0.9), (0, 0.2), (1, 0.6), (0, 0.4), (1, 0.7), (0, 0.1)]
   z.append(_mergeable('R2Tjur', rs.R2Tjur, yb, lambda a: _norm(a.result())))
   z.append(_mergeable('R2TjurRelative', rs.R2TjurRelative, yb, lambda a: _norm(a.result())))
